@@ -1,4 +1,29 @@
-(* placeholder until Proofs/PackUnpack.v lands *)
-From Bisturi Require Import Model.Consistent.
-Theorem C02_stub : elem_static (Bisturi.Model.Decl.ERefPkt BinNums.Z0 nil) = true. Proof. reflexivity. Qed.
-Print Assumptions C02_stub.
+(* C02 -- Serialize-then-parse reproduces the packet.
+   FULL STATEMENT: for every declaration of the supported language and every value assignment consistent with it,
+   unpack(p.pack()) succeeds, consumes the whole string and yields field-for-field equal values.
+   PROVED (`_partial`): exactly that for the sequential sublanguage for which `Model/Consistent.consistent` is defined --
+   integers, sized byte strings (constant / field / local expression), marker-delimited byte strings, references to
+   packets, counted sequences, optionals -- i.e. WITHOUT positioning, bit runs, regex / read-to-end delimiters, until-
+   loops and run-time selected references; those are covered by the correspondence and the oracle of
+   harness/props/C02.py on the implementation (and, for parse-then-serialize, by C01).  Finding D8 (a regex delimiter
+   not kept in the value) lies outside: the property excludes nothing there, the code fails it (KNOWN-FINDING). *)
+From Coq Require Import ZArith List Bool.
+From Bisturi Require Import Base.Bytes Kernel.Frag Model.Value Model.Decl Model.Unpack Model.Pack Model.Canon Model.Consistent
+                            Proofs.RoundTrip Proofs.PackUnpack.
+Import ListNotations. Open Scope Z_scope.
+
+(* a value that satisfies its declaration serializes (never fails) to well-formed bytes that parse back -- whatever
+   follows them in the input -- to the same packet on every declared attribute, ending exactly at the end of those bytes *)
+Theorem C02_pack_unpack_partial : forall fuel host dl ct c s rest,
+  ct_distinct ct = true -> ct_plain ct = true -> consistent fuel ct c s = true -> wf_bytes rest ->
+  exists out v', pack_top fuel host dl ct c s = PBytes out v' /\ wf_bytes out /\
+    exists s' t, unpack_pkt fuel host ct (out ++ rest) c 0 = POk (VPkt c s') (blen out) t /\
+                 visible ct (VPkt c s') = visible ct (VPkt c s).
+Proof. exact pack_unpack_sequential. Qed.
+
+(* non-vacuity: a class table with every construct of the sublanguage and a nested class, a consistent value, its
+   17-byte encoding and the parse back *)
+Example C02_example_hypotheses : ct_distinct pu_ct3 = true /\ ct_plain pu_ct3 = true /\ consistent 3 pu_ct3 0 pu_s3 = true.
+Proof. exact pu_ex_hyps. Qed.
+
+Print Assumptions C02_pack_unpack_partial.
